@@ -42,6 +42,10 @@ class K(V):
         return isinstance(o, K) and type(o.v) is type(self.v) and o.v == self.v
 
     def __hash__(self) -> int:
+        if isinstance(self.v, tuple):
+            return hash(("K", tuple(hash(x) for x in self.v)))  # consistent with element-wise equality
+        if isinstance(self.v, frozenset):
+            return hash(("K", frozenset(hash(x) for x in self.v)))
         return hash(("K", repr(self.v)))
 
 
@@ -73,11 +77,23 @@ class R(V):
     def __repr__(self) -> str:
         return f"R({self.kind},{self.fields})"
 
+    # CPython: two code objects are equal (and hash alike) when name, flags, first line, bytecode, constants, names ...
+    # agree - co_filename is NOT compared (Objects/codeobject.c, code_richcompare).  Records of kind 'code' follow that:
+    # the same function body at the same lines of two different files gives *equal, not identical* code objects.
+    NOT_COMPARED = {"code": ("co_filename",)}
+
+    def _cmp_fields(self) -> Dict[str, Any]:
+        skip = R.NOT_COMPARED.get(self.kind)
+        return self.fields if not skip else {k: v for k, v in self.fields.items() if k not in skip}
+
     def __eq__(self, o: object) -> bool:
+        return isinstance(o, R) and o.kind == self.kind and o._cmp_fields() == self._cmp_fields()
+
+    def identical(self, o: object) -> bool:
         return isinstance(o, R) and o.kind == self.kind and o.fields == self.fields
 
     def __hash__(self) -> int:
-        return hash(("R", self.kind, tuple(sorted((k, repr(v)) for k, v in self.fields.items()))))
+        return hash(("R", self.kind, tuple(sorted((k, repr(v)) for k, v in self._cmp_fields().items()))))
 
 
 class U(V):
@@ -899,7 +915,9 @@ class Interp:
             elif isinstance(a, K) and isinstance(b, K):
                 r = a == b
             elif isinstance(a, R) and isinstance(b, R):
-                if a == b:
+                if isinstance(op, (ast.Is, ast.IsNot)) and a.kind in R.NOT_COMPARED:
+                    r = a.identical(b)
+                elif a == b:
                     r = True
                 elif isinstance(op, (ast.Eq, ast.NotEq)) and (a.kind != b.kind or a.kind in ("val",)):
                     return None  # == may be user-defined
